@@ -14,6 +14,7 @@ import Cider.Model.Profiles
 import Cider.Model.Moves
 import Cider.Model.TextOps
 import Cider.Model.PH
+import Cider.Model.WL
 open Cider
 
 def ratStr (q : Rat) : String := s!"{q.num}/{q.den}"
@@ -229,6 +230,7 @@ def objQuery (cfg : Cfg) (o : Obj) (name : String) (args : List String) : Obj ×
 
 structure St where
   objs : List (Nat × Obj)
+  wl : Option (WLCfg × WLState) := none
 
 def St.get (st : St) (i : Nat) : Option Obj := (st.objs.find? (fun kv => kv.1 == i)).map (·.2)
 def St.set (st : St) (i : Nat) (o : Obj) : St := { objs := (i, o) :: st.objs.filter (fun kv => kv.1 != i) }
@@ -237,6 +239,28 @@ def handle (cfg : Cfg) (st : St) (line : String) : St × String :=
   let T := cfg.T
   match (line.trimAscii.toString.splitOn " ").filter (· ≠ "") with
   | ["reset"] => ({ objs := [] }, "ok")
+  -- C18: wlinit nbins rmin rmax ntarget nflatchk flatcrit convLn start ; wlstep idxNew rbits
+  | ["wlinit", nb, rmin, rmax, nt, nf, crit, conv, start] =>
+    let cfg : WLCfg := { nbins := nb.toNat!, rmin := rmin.toNat!, rmax := rmax.toNat!, ntarget := nt.toNat!,
+                         nflatchk := nf.toNat!, flatcrit := parseRatTok crit, convLn := parseRatTok conv }
+    ({ st with wl := some (cfg, wlInit cfg start.toNat!) }, "ok")
+  | ["wlstep", idx, rbits] =>
+    match st.wl with
+    | none => (st, "bad-op nowl")
+    | some (cfg, ws) =>
+      let r : Float := Float.ofBits (UInt64.ofNat rbits.toNat!)
+      let ratToFloat : Rat → Float := fun q => Float.ofInt q.num / Float.ofNat q.den
+      let accept : Rat → Bool := fun d => r < (if Float.exp (ratToFloat d) < 1.0 then Float.exp (ratToFloat d) else 1.0)
+      let running := wlRunning cfg ws
+      let res := wlStep cfg accept ws idx.toNat!
+      let ws' := res.1
+      ({ st with wl := some (cfg, ws') },
+        s!"wl {if running then 1 else 0} {if res.2 then 1 else 0} {ws'.cur} {ratStr (ws'.g.getD ws'.cur 0)} {ws'.H.getD ws'.cur 0} {ws'.fexp} {ws'.nstep} {ws'.niter} {if wlRunning cfg ws' then 1 else 0}")
+  | ["wlg"] =>
+    match st.wl with
+    | none => (st, "bad-op nowl")
+    | some (_, ws) => (st, outVec ws.g)
+  | ["binof", n, k] => (st, s!"int {binOf n.toNat! (parseRatTok k)}")
   | ["argmax", a, b, c] =>
     let r := trueArgmax a.toNat! b.toNat! c.toNat!
     (st, s!"argmax {ratStr r.1} {patStr r.2} {ratStr (dmaxComp a.toNat! b.toNat! c.toNat!)}")
